@@ -300,11 +300,59 @@ def predicate_backlog(ops, out):
 def nontrivial_backlog(ops, out):
     return any("mp=" in o for o in ops) and sum(1 for o in ops if o.startswith("pub ")) >= 3
 
+# ---------------------------------------------------------------- a publisher that sends a burst and goes away
+
+def gen_burst(rng):
+    """a publisher writes a burst of PUBLISH packets (and, half the time, a DISCONNECT) and closes its socket at once: everything
+    reaches the broker before it can notice the end. With QoS 0 the broker never writes to the publisher, so nothing tells it the
+    peer is gone before it has read the whole burst: every message that matches a subscription must be delivered (seed C01-5)"""
+    ops = [f"new mode={rng.choice(['overlap', 'onlyonce'])}", f"conn s cs v={rng.choice([4, 5])} cs=1",
+           f"sub s 1 t/#|{rng.choice([0, 1])}", f"conn p cp v={rng.choice([4, 5])} cs=1"]
+    tag = 0
+    for rnd in range(rng.randint(1, 3)):
+        k = rng.choice([2, 5, 8, 12, 20])
+        items = []
+        for i in range(k):
+            tag += 1
+            items.append(f"{0}:b{tag}")
+        ops.append(f"close p burst={','.join(items)} q=0 topic={rng.choice(['t/a', 't/b'])}")
+        ops += ["ack s puback all", "ping s"]
+        ops.append(f"conn p cp v={rng.choice([4, 5])} cs=1")
+    return ops
+
+def pred_burst(ops, out):
+    if len(out) != len(ops) or (out and out[0].startswith("CRASH")):
+        return "implementation crashed or hung: " + (out[0] if out else "")
+    for op, line in zip(ops, out):
+        if "HANG" in line:
+            return f"broker did not become quiescent after `{op}`"
+        if op.startswith("close ") and " burst=" in op:
+            kv = dict(x.split("=", 1) for x in op.split() if "=" in x)
+            tags = [it.split(":")[1] for it in kv["burst"].split(",")]
+            _, conns = wire.parse_line(line)
+            got = [g["tag"] for g in (wire.pub_fields(x) for x in conns.get("s", ([], []))[1]) if g]
+            if got != tags:
+                return (f"`{op}`: the publisher sent {len(tags)} QoS 0 messages matching the subscription and closed; the subscriber got "
+                        f"{got} — every one must be delivered, in order (no documented drop condition applies)")
+    return None
+
+def hint_burst(ops, impl_out):
+    res = []
+    for op, line in zip(ops, impl_out):
+        if op.startswith("close ") and " burst=" in op:
+            _, conns = wire.parse_line(line)
+            got = [g for g in (wire.pub_fields(x) for x in conns.get("s", ([], []))[1]) if g]
+            op += f" done={len(got)}"
+        res.append(op)
+    return res + list(ops[len(res):])
+
 def streams(tier):
     n = 600 if tier == "quick" else 20000
     return [(core.Stream("broker-deliver", "broker", gen, predicate, nontrivial, canon=canon, keep_prefix=1, hint=wire.shared_hints), n),
             (core.Stream("broker-backlog", "broker", gen_backlog, predicate_backlog, nontrivial_backlog, canon=canon, keep_prefix=1,
                          hint=wire.shared_hints), n // 2),
+            (core.Stream("broker-burst-close", "broker", gen_burst, pred_burst, lambda ops, out: True, canon=canon, keep_prefix=4,
+                         hint=hint_burst), 80 if tier == "quick" else 3000),
             _par(tier)]
 
 def _par(tier):
